@@ -30,6 +30,8 @@ def histories(rng, sc, ncases, nprefix):
             ops = []
             for _ in range(len(ms) * 2 + 4):
                 ops += ["N", "X"] if rng.random() < 0.8 else ["N"]
+                if ci % 4 == 0 and rng.random() < 0.2:
+                    ops.append("P" + rng.choice(["plain", "eod", "eof"]))      # the policy may change while directories are pending
         cuts = sorted(set([len(ops)] + [rng.randrange(1, len(ops) + 1) for _ in range(nprefix)]))
         for c in cuts:
             hs.append((g, a, pol, ops[:c], rng.choice(["path", "path", "FILE", "cb", "cbns"])))
@@ -50,6 +52,12 @@ def failing_extractions(rng, sc):
             a, g = RG.write_case(sc, "fx%d%s" % (ci, pol), ms, pol)
             for cut in sorted(set([len(ops), 3, 4])):
                 hs.append((g, a, pol, ops[:cut], ["path", "cb"][ci % 2]))
+    # the directory policy changed while directories are pending (and the archive abandoned right there, or walked to its end)
+    for pi, (ms, pol, ops) in enumerate(RG.policy_switch_cases()):
+        if pi % 3 == 2:
+            continue
+        a, g = RG.write_case(sc, "psw%d" % pi, ms, pol)
+        hs.append((g, a, pol, ops, "path"))
     return hs
 
 
